@@ -129,7 +129,7 @@ PROPS = {
     },
     "C10": {
         "modules": ["Properties.C10"],
-        "theorems": ["C10_memory_rule_band", "C10_redis_rule_band", "C10_honoured_only_if_alive", "C10_live_session_is_honoured", "C10_created_fixed", "C10_memory_store_follows_its_rule"],
+        "theorems": ["C10_memory_rule_band", "C10_redis_rule_band", "C10_honoured_only_if_alive", "C10_live_session_is_honoured", "C10_created_fixed", "C10_memory_store_follows_its_rule", "C10_redis_store_follows_its_rule"],
         "describe_item": _store_item, "signature": _sig_store,
         "trusted": ["Redis is represented by miniredis (virtual clock via SetTime/FastForward); go-redis and the RFC 3339 time encoding are exercised, not modelled",
                     "the system-level run uses the real start-up wiring (NewSessionStoreFactory.PreRun) and the real clock for the memory store; miniredis does not expire keys in real time, so Redis is covered at store level only"],
@@ -137,7 +137,7 @@ PROPS = {
     },
     "C12": {
         "modules": ["Properties.C12"],
-        "theorems": ["C12_spec_is_plain_map", "C12_read_latest_write", "C12_ids_independent", "C12_remove_erases_all", "C12_clear_keeps_tokens", "C12_memory_refines_spec", "C12_created_fixed"],
+        "theorems": ["C12_spec_is_plain_map", "C12_read_latest_write", "C12_ids_independent", "C12_remove_erases_all", "C12_clear_keeps_tokens", "C12_memory_refines_spec", "C12_redis_refines_spec", "C12_created_fixed"],
         "describe_item": _store_item, "signature": _sig_store,
         "trusted": ["Redis is represented by miniredis; the Redis store's command-level model (Store/Redis.v) is tied to the code by lock-step comparison only - its refinement of the abstract map is compared on every explored sequence, not proved",
                     "linearizability: the witness order is searched by the harness and CHECKED in Coq against the memory-store model"],
@@ -161,7 +161,7 @@ PROPS = {
     "C20": {
         "modules": ["Properties.C20"],
         "theorems": ["C20_trust_matches_config", "C20_skip_only_if_requested_and_no_ca", "C20_identical_settings_share", "C20_distinct_settings_distinct",
-                     "C20_rotation", "C20_superseded_watcher_stops"],
+                     "C20_rotation", "C20_superseded_watcher_stops", "C20_other_settings_do_not_stop_a_watcher"],
         "describe_item": (lambda d, it: {"scenario": d.get("scenario"), "op_index": it, "op": (d.get("ops") or [None] * (it + 1))[it] if isinstance(it, int) and it < len(d.get("ops") or []) else None}),
         "signature": (lambda d, it, codes: "C20/same-file-watcher-superseded" if codes == [12] else None),
         "trusted": ["X.509 verification and the TLS handshake are Go's (judged by real handshakes against loopback servers of throw-away CAs); timers are real (waits of ten intervals); FNV-64a is assumed collision-free on the explored pool keys"],
